@@ -89,6 +89,13 @@ CHECKS = {
             "unit-level images must be a sub-view of the document iterator and coincide for page/slide/sheet formats.",
             "Same generators as C02; vlib/gen/images.py writes valid minimal raster containers.",
             "DESIGN.md §8 C14"),
+    "C15": ("exploration",
+            "controlled scheduler (token passing at every access to the patched pypdf module attribute, DFS over schedules with stall detection for blocked threads) + 8-thread preemptive stress with 1 us switch interval + random extraction histories, all judged by a global-state snapshot and digests vs fresh-process baselines",
+            "All interleavings of two threads through the real patch/extract/restore section of PDF text extraction are enumerated (complete DFS), three threads preemption-bounded plus random schedules; after each schedule the "
+            "patched function must be the original again and no thread may see the original inside its own section. A mixed PDF-heavy workload runs in 8 preempted threads and in random single-process histories (incl. failing inputs); "
+            "results must equal baselines computed in fresh processes and the snapshot (patched function identity and wrapper depth, archive configuration, private TMPDIR, threads, open handles) must be restored.",
+            "Scheduling points are the accesses to the patched attribute; races inside C-level calls are out of reach; the one-way AES provider patch is documented and excluded.",
+            "DESIGN.md §8 C15"),
     "C16": ("exploration",
             "stdlib-generated RFC 5322/MIME messages and mboxrd mailboxes with unique tokens; per-field oracle on read_eml/read_mbox results, eml-vs-mbox cross-check, attachments vs direct extraction",
             "Messages over random header sets, RFC 2047 B/Q words in five charsets, folded headers, address lists with quoted commas and groups, four transfer encodings, nested multiparts and 0..4 attachments "
